@@ -19,7 +19,7 @@ def chrom_names(tape, n_auto, with_x, with_y, style):
     return names
 
 
-def gen_cnr(tape, tier, max_chroms=6, size_classes=None, label="cnr"):
+def gen_cnr(tape, tier, max_chroms=6, size_classes=None, label="cnr", force_mirror_arms=False):
     """Return dict(columns..., arms=[(chrom, i0, i1)], plan=...)."""
     style = tape.choice(["chr", "plain"], label + ".style")
     n_chrom = tape.weighted([(1, 2), (2, 3), (3, 3), (4, 2), (6, 2)], label + ".nchrom")
@@ -44,25 +44,45 @@ def gen_cnr(tape, tier, max_chroms=6, size_classes=None, label="cnr"):
     # "twins": several chromosomes / arms of identical length (anything keyed on a
     # table's shape rather than its content is confused only by these)
     twins = tape.chance(1, 3, label + ".twins")
+    # "mirror arms": one chromosome whose two arms have the same number of bins (> 101, so
+    # that by_arm looks for a centromere inside each arm again), no bin is filtered, and only
+    # one arm holds a second arm-sized gap
+    mirror_arms = force_mirror_arms or (
+        tape.chance(1, 10, label + ".mirror_arms") and max(c for c, _w in size_classes) >= 400)
+    if mirror_arms:
+        null_rate = zero_w_rate = outlier_rate = 0.0
+        edge_nulls = False
     prev_n = None
-    for cname in names:
+    for ci_, cname in enumerate(names):
         cls = tape.weighted(size_classes, label + ".sizeclass")
         n = tape.between(1, cls, label + ".nbins") if cls > 2 else cls
         if twins and prev_n is not None and tape.chance(2, 3, label + ".twin"):
             n = prev_n
+        force_mirror = mirror_arms and ci_ == 0
+        if force_mirror:
+            n = 2 * tape.between(102, 190, label + ".mirror_half")
         prev_n = n
         widths = rng.integers(50, 501, size=n)
         gaps = rng.integers(0, 3001, size=n)
         gaps[rng.random(n) < 0.3] = 0  # abutting bins
         cen = None
-        if n >= 160 and tape.chance(1, 2, label + ".centromere"):
+        if n >= 160 and (force_mirror or tape.chance(1, 2, label + ".centromere")):
             lo = max(60, int(np.ceil(0.3 * n)))
             hi = n - lo
             if hi > lo:
                 cen = int(rng.integers(lo, hi + 1))
-                if twins and n % 2 == 0 and lo <= n // 2 <= hi:
+                if (twins or force_mirror) and n % 2 == 0 and lo <= n // 2 <= hi:
                     cen = n // 2  # equal-length arms
                 gaps[cen] = int(rng.integers(2_000_000, 5_000_001))
+                # a second, smaller (but still arm-sized) gap inside one arm: haar and the
+                # smoother split arms again with by_arm; the centromere stays the largest gap,
+                # so the top-level arm structure is still the planted one
+                if force_mirror or tape.chance(1, 2, label + ".gap2"):
+                    a0, a1 = (0, cen) if rng.random() < 0.5 else (cen, n)
+                    m = max(50, int(round(0.1 * (a1 - a0))))
+                    if a1 - a0 > 2 * m + 1:
+                        k = a0 + int(rng.integers(m + 1, a1 - a0 - m))
+                        gaps[k] = int(rng.integers(100_000, 400_001))
         pos = int(rng.integers(0, 100_000))
         s = np.empty(n, dtype=np.int64)
         e = np.empty(n, dtype=np.int64)
@@ -84,7 +104,8 @@ def gen_cnr(tape, tier, max_chroms=6, size_classes=None, label="cnr"):
         out = rng.random(n) < outlier_rate
         l2[out] += rng.choice([-6.0, 6.0], size=int(out.sum()))
         w = rng.uniform(0.05, 1.0, size=n)
-        w[rng.random(n) < 0.05] = 1e-4
+        if not mirror_arms:
+            w[rng.random(n) < 0.05] = 1e-4
         w[rng.random(n) < zero_w_rate] = 0.0
         dp = np.exp2(l2) * 100.0
         null = rng.random(n) < null_rate
@@ -100,6 +121,16 @@ def gen_cnr(tape, tier, max_chroms=6, size_classes=None, label="cnr"):
                         k = ei + j if ei in (0, cen) else ei - j
                         if 0 <= k < n:
                             null[k] = True
+        dead_arm = None
+        if cen is not None and not mirror_arms and tape.chance(1, 3, label + ".dead_arm"):
+            # every bin of one arm is unusable (zero weight: always filtered; null coverage:
+            # filtered with skip_low), the other arm survives
+            a0, a1 = (0, cen) if rng.random() < 0.5 else (cen, n)
+            dead_arm = "zero_weight" if rng.random() < 0.5 else "null"
+            if dead_arm == "zero_weight":
+                w[a0:a1] = 0.0
+            else:
+                null[a0:a1] = True
         l2[null] = -20.0
         dp[null] = 0.0
         g = _gene_names(rng, n, cname)
@@ -115,7 +146,7 @@ def gen_cnr(tape, tier, max_chroms=6, size_classes=None, label="cnr"):
         else:
             arms.append((cname, row, row + cen - 1))
             arms.append((cname, row + cen, row + n - 1))
-        plan_chroms.append({"chrom": cname, "bins": n, "centromere_at": cen,
+        plan_chroms.append({"chrom": cname, "bins": n, "centromere_at": cen, "dead_arm": dead_arm,
                             "null_bins": int(null.sum()), "zero_weight": int((w == 0).sum())})
         row += n
     cols = {
@@ -125,7 +156,8 @@ def gen_cnr(tape, tier, max_chroms=6, size_classes=None, label="cnr"):
     if not has_depth:
         del cols["depth"]
     return {"columns": cols, "arms": arms, "n": row,
-            "plan": {"chroms": plan_chroms, "has_depth": has_depth, "style": style}}
+            "plan": {"chroms": plan_chroms, "has_depth": has_depth, "style": style,
+                     "mirror_arms": bool(mirror_arms)}}
 
 
 def _gene_names(rng, n, cname):
